@@ -12,9 +12,12 @@ import (
 	"flag"
 	"fmt"
 	"os"
+	"os/exec"
 	"path/filepath"
 	"runtime/debug"
+	"sort"
 	"strings"
+	"sync"
 	"time"
 
 	"verifchecker/internal/engine"
@@ -105,6 +108,9 @@ func run(prop, tier, repo, verif, tags, replayKey string, evidence bool, f rules
 	r.Stats["packages"] = len(p.Pkgs)
 	r.Stats["functions"] = len(p.Funcs)
 	f(&rules.Ctx{P: p, R: r, Tier: tier, VerifDir: verif})
+	if tier == "thorough" && replayKey == "" {
+		thorough(prop, repo, verif, r, f)
+	}
 	known, err := report.LoadKnown(filepath.Join(verif, "known_findings.json"))
 	if err != nil {
 		fmt.Println("ERROR", err)
@@ -136,4 +142,171 @@ func run(prop, tier, repo, verif, tags, replayKey string, evidence bool, f rules
 	}
 	cmd := "/verif/bin/verifcheck -property " + prop + " -tier " + tier
 	return r.Finish(verif, known, cmd, trusted, evidence)
+}
+
+// thorough extends the default-configuration run of a property in two directions:
+//
+//  1. the same rules are evaluated on the other build configurations of the repository (the
+//     build tags that select alternative files, and a 32-bit target, where int is 32 bits wide);
+//     an obligation that fails only there is reported with the configuration in its key;
+//  2. the checker's own sensitivity on this very tree: every committed mutant of the property
+//     (/verif/mutants/<id>/*.diff, one broken rule instance each) is applied to a scratch copy
+//     and must be reported, every committed behaviour-preserving variant
+//     (/verif/equivalents/<id>/*.diff) must stay silent.  The result is recorded in the evidence
+//     (it does not change the verdict about /repo).
+func thorough(prop, repo, verif string, base *report.Run, f rules.PropFunc) {
+	baseFail := map[string]bool{}
+	for _, o := range base.Obs {
+		if !o.OK {
+			baseFail[o.Key] = true
+		}
+	}
+	type bc struct {
+		name string
+		cfg  engine.Config
+	}
+	configs := []bc{
+		{"tags=debug", engine.Config{Dir: repo, Tags: []string{"debug"}}},
+		{"tags=gluon_pprof_disabled", engine.Config{Dir: repo, Tags: []string{"gluon_pprof_disabled"}}},
+		{"GOARCH=386", engine.Config{Dir: repo, Env: []string{"GOARCH=386", "CGO_ENABLED=0"}}},
+	}
+	var rows []string
+	rows = append(rows, fmt.Sprintf("default: %d obligations", len(base.Obs)))
+	for _, c := range configs {
+		p, err := engine.Load(c.cfg)
+		if err != nil {
+			rows = append(rows, c.name+": could not be loaded ("+firstLine(err.Error())+") - not analysed")
+			continue
+		}
+		sub := report.NewRun(prop, "thorough")
+		func() {
+			defer func() {
+				if rec := recover(); rec != nil {
+					sub.Fail("infra", "panic in "+c.name, "", fmt.Sprint(rec))
+				}
+			}()
+			f(&rules.Ctx{P: p, R: sub, Tier: "thorough", VerifDir: verif})
+		}()
+		extra := 0
+		for _, o := range sub.Obs {
+			if !o.OK && !baseFail[o.Key] {
+				extra++
+				o2 := o
+				base.FailPath(o2.Rule, strings.TrimPrefix(o2.Key, o2.Rule+"|")+" @"+c.name, o2.Pos, o2.Msg+" (only in build configuration "+c.name+")", o2.Path)
+			}
+		}
+		rows = append(rows, fmt.Sprintf("%s: %d obligations, %d additional failures", c.name, len(sub.Obs), extra))
+		base.Stats["obligations@"+c.name] = len(sub.Obs)
+	}
+	base.Table("thorough: build configurations analysed", rows...)
+
+	// self-test on a scratch copy of this tree
+	exe, err := os.Executable()
+	if err != nil {
+		base.Note("self-test skipped: %v", err)
+		return
+	}
+	muts, _ := filepath.Glob(filepath.Join(verif, "mutants", prop, "*.diff"))
+	eqs, _ := filepath.Glob(filepath.Join(verif, "equivalents", prop, "*.diff"))
+	sort.Strings(muts)
+	sort.Strings(eqs)
+	type job struct {
+		patch string
+		equiv bool
+	}
+	var jobs []job
+	for _, m := range muts {
+		jobs = append(jobs, job{m, false})
+	}
+	for _, m := range eqs {
+		jobs = append(jobs, job{m, true})
+	}
+	results := make([]string, len(jobs))
+	var wg sync.WaitGroup
+	sem := make(chan struct{}, 5)
+	for i, j := range jobs {
+		wg.Add(1)
+		go func(i int, j job) {
+			defer wg.Done()
+			sem <- struct{}{}
+			defer func() { <-sem }()
+			results[i] = runVariant(exe, prop, repo, verif, j.patch, j.equiv)
+		}(i, j)
+	}
+	wg.Wait()
+	applied, detected, silent := 0, 0, 0
+	var srows []string
+	for i, j := range jobs {
+		srows = append(srows, filepath.Base(filepath.Dir(filepath.Dir(j.patch)))+"/"+filepath.Base(j.patch)+": "+results[i])
+		switch {
+		case strings.HasPrefix(results[i], "DETECTED"):
+			applied++
+			detected++
+		case strings.HasPrefix(results[i], "MISSED"):
+			applied++
+			fmt.Printf("SELFTEST-MISSED property=%s %s\n", prop, filepath.Base(j.patch))
+		case strings.HasPrefix(results[i], "SILENT"):
+			silent++
+		case strings.HasPrefix(results[i], "FALSE-ALARM"):
+			fmt.Printf("SELFTEST-FALSE-ALARM property=%s %s\n", prop, filepath.Base(j.patch))
+		}
+	}
+	base.Table("thorough: self-test on a scratch copy of this tree (mutants must be reported, equivalents must not)", srows...)
+	base.Stats["mutants_applied"] = applied
+	base.Stats["mutants_detected"] = detected
+	base.Stats["equivalents_silent"] = silent
+	base.Stats["equivalents_total"] = len(eqs)
+}
+
+func firstLine(s string) string {
+	if i := strings.IndexByte(s, '\n'); i >= 0 {
+		return s[:i]
+	}
+	return s
+}
+
+// runVariant applies one patch to a scratch copy of the working tree and runs the quick check on it.
+func runVariant(exe, prop, repo, verif, patch string, equiv bool) string {
+	dir, err := os.MkdirTemp("", "verif-variant-")
+	if err != nil {
+		return "SKIPPED (" + err.Error() + ")"
+	}
+	defer os.RemoveAll(dir)
+	sh := func(cmd string) error {
+		c := exec.Command("bash", "-c", cmd)
+		c.Env = append(os.Environ(), "GOFLAGS=-mod=mod", "GOPROXY=off", "GOSUMDB=off", "GOTOOLCHAIN=local", "GOWORK=off")
+		return c.Run()
+	}
+	if err := sh(fmt.Sprintf("cd %q && (git ls-files -z | xargs -0 tar -cf - 2>/dev/null) | tar -xf - -C %q", repo, dir)); err != nil {
+		return "SKIPPED (copy failed)"
+	}
+	if err := sh(fmt.Sprintf("cd %q && git init -q . && git apply %q", dir, patch)); err != nil {
+		return "SKIPPED (patch does not apply to this tree)"
+	}
+	c := exec.Command(exe, "-property", prop, "-repo", dir, "-verif", verif, "-no-evidence", "-tier", "quick")
+	c.Env = append(os.Environ(), "GOFLAGS=-mod=mod", "GOPROXY=off", "GOSUMDB=off", "GOTOOLCHAIN=local", "GOWORK=off")
+	out, _ := c.CombinedOutput()
+	code := c.ProcessState.ExitCode()
+	first := ""
+	lines := strings.Split(string(out), "\n")
+	for i, l := range lines {
+		if strings.HasPrefix(l, "VIOLATION") && i > 0 {
+			first = strings.TrimSpace(lines[i-1])
+			if len(first) > 140 {
+				first = first[:140]
+			}
+			break
+		}
+	}
+	switch {
+	case equiv && code == 0:
+		return "SILENT"
+	case equiv && code == 1:
+		return "FALSE-ALARM " + first
+	case !equiv && code == 1:
+		return "DETECTED " + first
+	case !equiv && code == 0:
+		return "MISSED"
+	}
+	return fmt.Sprintf("SKIPPED (checker exit %d: the variant does not build or load)", code)
 }
